@@ -420,20 +420,17 @@ def check_increment_type(run, fx, ev):
     for k0 in [0, 1, 2, 10**9 - 1, 10**9, 10**9 + 1, 2**32 - 1]:
         k, v = fold(ev, f, [k0])
         want = 1 <= k0 <= 10**9
-        run.check((k == "ok") == want and (want or v == "Range"), rule, "try_new/%d" % k0, "try_new(%d) -> %s" % (k0, k),
-                  "try_new(%d) -> %s %s" % (k0, k, v), f.loc)
-    # the f64 route: read the range literal from the HIR (trunc/is_finite are std calls)
-    lits = []
-    for n in hir_walk(g.hir):
-        if isinstance(n, dict) and n.get("k") == "lit" and "float" in n["v"]:
-            lits.append(n["v"]["float"])
-    run.check(sorted(lits) == [1.0, 1e9], rule, "try_from_f64/bounds", "f64 bounds %s" % sorted(lits),
-              "TryFrom<f64> compares against %s, expected [1.0, 1e9]" % sorted(lits), g.loc)
-    has_contains = any(isinstance(n, dict) and n.get("k") == "mcall" and n.get("name") == "contains"
-                       for n in hir_walk(g.hir))
-    has_trunc = any(isinstance(n, dict) and n.get("k") == "mcall" and n.get("name") == "trunc" for n in hir_walk(g.hir))
-    run.check(has_contains and has_trunc, rule, "try_from_f64/shape", "truncates then range-checks inclusively",
-              "TryFrom<f64> no longer truncates and range-checks with an inclusive range", g.loc)
+        tri(run, rule, "try_new/%d" % k0, (k, v), (k == "ok") == want and (want or v == "Range"), "try_new(%d) -> %s" % (k0, k),
+            "try_new(%d) -> %s %s" % (k0, k, str(v)[:60]), f.loc)
+    # the f64 route, folded at the boundaries (truncation first, then the inclusive range)
+    INC = OPT + "increment::RoundingIncrement"
+    for x, want in ((0.0, None), (0.9, None), (1.0, 1), (1.9, 1), (2.5, 2), (1e9, 10**9), (1e9 + 0.5, 10**9), (1e9 + 1, None),
+                    (float("inf"), None), (float("-inf"), None), (-5.0, None)):
+        k, v = fold(H.Evaluator(fx), g, [x])
+        ok = (k == "ok" and v == H.V(INC, (want,))) if want is not None else (k == "err" and v == "Range")
+        tri(run, rule, "try_from_f64/%r" % x, (k, v), ok, "try_from(%r) -> %s" % (x, want if want is not None else "RangeError"),
+            "RoundingIncrement::try_from(%r) -> %s %s, expected %s (truncate, then accept 1..=10^9)" %
+            (x, k, show(v)[:60] if k != "err" else v, want if want is not None else "a RangeError"), g.loc)
 
 
 def check_year_month_refusal(run, fx, ev):
